@@ -1,24 +1,57 @@
 import PyAirtouch.Util.Hex
 import PyAirtouch.Spec.Crc
+import PyAirtouch.Spec.Trace
+import PyAirtouch.Spec.TraceParse
 /-! Line-protocol oracle over the *specification* only (never imports Gen or Model). -/
 open PyAirtouch PyAirtouch.Util PyAirtouch.Spec
 
-def answer (ws : List String) : String :=
+structure OState where
+  trace : List Trace.Ev := []
+
+def b2s (b : Bool) : String := if b then "1" else "0"
+
+def answer (st : OState) (ws : List String) : OState × String :=
   match ws with
   | ["crc", h] =>
     match parseHex h with
-    | some bs => toHex (checkBytes bs)
-    | none => "bad-op"
-  | _ => "bad-op"
+    | some bs => (st, toHex (checkBytes bs))
+    | none => (st, "bad-op")
+  | ["trace-begin"] => ({ st with trace := [] }, "ok")
+  | "ev" :: rest =>
+    match Trace.parseEv rest with
+    | some e => ({ st with trace := e :: st.trace }, "ok")
+    | none => (st, "bad-ev")
+  | "trace-end" :: mons =>
+    let tr := st.trace.reverse
+    let res := mons.map fun m =>
+      match m with
+      | "c01" => "c01=" ++ b2s (Trace.c01 tr)
+      | "c01a" => "c01a=" ++ b2s (Trace.wireOnlySubmitted tr)
+      | "c01b" => "c01b=" ++ b2s (Trace.onceInOrderWithoutFault tr)
+      | "c01c" => "c01c=" ++ b2s (Trace.deliveredWhenPossible tr)
+      | "c02" => "c02=" ++ b2s (Trace.c02 tr)
+      | "c02a" => "c02a=" ++ b2s (Trace.attemptsBounded tr)
+      | "c02b" => "c02b=" ++ b2s (Trace.neverAtOrAfterExpiry tr)
+      | "c02c" => "c02c=" ++ b2s (Trace.resentFirst tr)
+      | "c07" => "c07=" ++ b2s (Trace.c07 tr 9999)
+      | "c07a" => "c07a=" ++ b2s (Trace.atMostOneConnection tr)
+      | "c07b" => "c07b=" ++ b2s (Trace.noLeakAtCensus tr)
+      | "c07c" => "c07c=" ++ b2s (Trace.healed tr 9999)
+      | "c15" => "c15=" ++ b2s (Trace.c15 tr)
+      | "c16" => "c16=" ++ b2s (Trace.c16 tr)
+      | other => other ++ "=?"
+    ({ st with trace := [] }, " ".intercalate res)
+  | _ => (st, "bad-op")
 
-partial def loop (hin hout : IO.FS.Stream) : IO Unit := do
+partial def loop (hin hout : IO.FS.Stream) (st : OState) : IO Unit := do
   let line ← hin.getLine
   if line.isEmpty then return ()
-  hout.putStrLn (answer (words (line.trimAscii.toString)))
-  loop hin hout
+  let (st', out) := answer st (words (line.trimAscii.toString))
+  hout.putStrLn (out.replace "\n" " ")
+  loop hin hout st'
 
 def main : IO Unit := do
   let hin ← IO.getStdin
   let hout ← IO.getStdout
-  loop hin hout
+  loop hin hout {}
   hout.flush
